@@ -10,5 +10,6 @@ import SynKitProofs.Props.C06
 #print axioms SynKit.SubgraphSearch.strict_guard
 #print axioms SynKit.SubgraphSearch.limit_comp
 #print axioms SynKit.SubgraphSearch.prefilter_spec
+#print axioms SynKit.SubgraphSearch.comp_complete
 #print axioms SynKit.Match.mem_allMonos
 #print axioms SynKit.Match.allMonos_nodup
